@@ -6,6 +6,7 @@
    -DOP=2  look up an arbitrary 32-bit register number
    -DOP=3  look up the name H_NAME */
 #define H_NO_LEDGER
+#define H_ERROR_PATH_WITNESS /* every obligation of this file has a reachable error path */
 #include "h.h"
 #include "mini_mir_pre.h"
 #if H_CBMC
